@@ -433,6 +433,10 @@ func (e *Exec) ccall(st *State, x *ast.CallExpr, env *cenv) Val {
 				cl = Val{T: e.closed0()}
 			}
 			return Val{T: Select(cl.T, ch.T), GT: boolT}
+		case "deferred":
+			// deferred(): the number of defer statements the function under contract has executed so far on this
+			// path (so "a recovery handler is already installed here" can be stated at a call site)
+			return Val{T: IntLit(int64(len(e.frames[0].defers))), GT: intT}
 		case "received":
 			// received(ch): this path has completed a receive on ch (so a send on ch or close(ch) happened before)
 			ch := arg(0)
